@@ -310,3 +310,34 @@ func (c *simClock) jumpTo(t time.Time) {
 	}
 	c.mu.Unlock()
 }
+
+// deliverStamped delivers the tick of a timer that became due earlier:
+// the tick carries the instant the timer fired (its deadline), although
+// the clock has moved on since - what a goroutine sees when it gets to
+// handle an expired timer late.
+func (c *simClock) deliverStamped(id int) bool {
+	c.mu.Lock()
+	t, ok := c.timers[id]
+	if !ok || t.deadline.After(c.now) {
+		c.mu.Unlock()
+		return false
+	}
+	delete(c.timers, id)
+	stamp := t.deadline
+	c.mu.Unlock()
+	t.ch <- stamp
+	return true
+}
+
+// noTimerDueBy reports whether no pending timer other than the given one
+// has a deadline at or before t.
+func (c *simClock) noTimerDueBy(t time.Time, except int) bool {
+	c.mu.Lock()
+	defer c.mu.Unlock()
+	for id, x := range c.timers {
+		if id != except && !x.deadline.After(t) {
+			return false
+		}
+	}
+	return true
+}
